@@ -184,18 +184,28 @@ def replay_l141(cfg, m):
     st = io.BytesIO(st0.getvalue() + body)
     calls = [0]
 
+    class Hang(BaseException):
+        pass
+
     def tracer(frame, event, arg):
-        if event == 'call':
+        # Python and C calls both count: a loop around stream.read()/len() makes no Python-level call
+        if event in ('call', 'c_call'):
             calls[0] += 1
+            if calls[0] > 200000:
+                raise Hang()
+    hung = False
     sys.setprofile(tracer)
     try:
         try:
             s.deserialize_types[{'seq': 16, 'map': 17, 'set': 18, 'string': 13, 'bytes': 14}[kind]](st)
         except Exception:
             pass
+        except Hang:
+            hung = True
     finally:
         sys.setprofile(None)
-    return calls[0] > 20 * present + 60, 'calls=%d present=%d declared=%d' % (calls[0], present, m.get('declared_len', 0))
+    return hung or calls[0] > 60 * present + 200, 'calls=%s present=%d declared=%d content=%d bytes' % (
+        '>200000 (does not terminate)' if hung else calls[0], present, m.get('declared_len', 0), m.get('content_len', 0))
 
 
 R.add('L14.1', l141, lambda tier: [dict(kind=k, maxit=(3 if tier == 'quick' else 6)) for k in CONTAINERS],
